@@ -61,23 +61,26 @@ Qed.
 Lemma expand_mono_le S k k' d f : (k <= k')%nat -> In f (expand k S d) -> In f (expand k' S d).
 Proof. intros Hle. induction Hle as [|m Hm IH]; [auto | intros Hf; apply expand_mono, IH, Hf]. Qed.
 
-(* a height function: a definition is higher than every definition of every rule it refers to *)
+(* a height function: a definition of the schema is higher than every definition of every rule it refers to *)
 Section Down.
   Variable S : lvsfile.
   Variable h : rule -> nat.
-  Hypothesis Hh : forall d r d', In (CRef r) (r_name d) -> In d' (defs_of S r) -> (h d' < h d)%nat.
+  Hypothesis Hh : forall d r d', In d S -> In (CRef r) (r_name d) -> In d' (defs_of S r) -> (h d' < h d)%nat.
 
-  Lemma expand_down : forall k d f, (h d < k)%nat -> In f (expand (Datatypes.S k) S d) -> In f (expand k S d).
+  Lemma defs_of_in r d' : In d' (defs_of S r) -> In d' S.
+  Proof. unfold defs_of. intros H. apply filter_In in H. tauto. Qed.
+
+  Lemma expand_down : forall k d f, In d S -> (h d < k)%nat -> In f (expand (Datatypes.S k) S d) -> In f (expand k S d).
   Proof.
-    induction k as [|k IH]; intros d f Hk H; [lia|].
+    induction k as [|k IH]; intros d f Hd Hk H; [lia|].
     apply in_expand_S in H. destruct H as (cs & parts & Hcs & Hp & ->). apply in_expand_S. exists cs, parts. split; [exact Hcs|]. split; [|reflexivity].
     eapply forall2_impl; [|exact Hp]. intros c part Hc Hin. destruct c as [v|p|r]; cbn in *; try exact Hin.
     apply in_flat_map in Hin. destruct Hin as (d' & Hd' & Hf). apply in_flat_map. exists d'. split; [exact Hd'|].
-    apply IH; [|exact Hf]. pose proof (Hh d r d' Hc Hd'). lia.
+    apply IH; [eapply defs_of_in; eauto | | exact Hf]. pose proof (Hh d r d' Hd Hc Hd'). lia.
   Qed.
 
-  Lemma expand_down_le k k' d f : (h d < k)%nat -> (k <= k')%nat -> In f (expand k' S d) -> In f (expand k S d).
+  Lemma expand_down_le k k' d f : In d S -> (h d < k)%nat -> (k <= k')%nat -> In f (expand k' S d) -> In f (expand k S d).
   Proof.
-    intros Hk Hle. induction Hle; [auto|]. intros H. apply IHHle. apply expand_down; [lia | exact H].
+    intros Hd Hk Hle. induction Hle; [auto|]. intros H. apply IHHle. apply expand_down; [exact Hd | lia | exact H].
   Qed.
 End Down.
